@@ -163,15 +163,23 @@ struct Session {
 }
 
 fn make_session(oti: &Oti, objs: &[ObjSpec], interleave: u8, multiplex: u32) -> Option<Session> {
+    let (oti, objs, il, mx) = (oti.clone(), objs.to_vec(), interleave, multiplex);
+    guarded(std::panic::AssertUnwindSafe(move || make_session2(&oti, &objs, il, mx, false))).ok().flatten()
+}
+
+/// `fdt_level`: the OTI under test is the session's (FDT-level attributes, FDT sent with it too); otherwise the session
+/// uses No-Code/1400 (FDT in one packet) and every object carries the OTI as a per-object override (File-level attributes)
+fn make_session2(oti: &Oti, objs: &[ObjSpec], interleave: u8, multiplex: u32, fdt_level: bool) -> Option<Session> {
+    let sess_oti = if fdt_level { oti.clone() } else { Oti::new_no_code(1400, 64) };
     let mut cfg = sender::Config::default();
     cfg.interleave_blocks = interleave;
     cfg.toi_initial_value = Some(1);
     cfg.set_priority_queue(0, sender::PriorityQueue::new(multiplex));
-    let mut s = Sender::new(endpoint(), TSI, oti, &cfg);
+    let mut s = Sender::new(endpoint(), TSI, &sess_oti, &cfg);
     let mut infos = Vec::new();
     for (i, o) in objs.iter().enumerate() {
         let url = url::Url::parse(&format!("file:///o{}", i)).unwrap();
-        let tc = TransferConfig { max_transfer_count: o.transfers, cenc: o.cenc, inband_cenc: o.inband_cenc, oti: o.oti.clone(), ..Default::default() };
+        let tc = TransferConfig { max_transfer_count: o.transfers, cenc: o.cenc, inband_cenc: o.inband_cenc, oti: if fdt_level { o.oti.clone() } else { Some(o.oti.clone().unwrap_or(oti.clone())) }, ..Default::default() };
         let desc = ObjectDesc::create_from_buffer(o.content.clone(), "application/octet-stream", &url, o.md5, tc).ok()?;
         let toi = s.add_object(0, desc).ok()?;
         let transfer = if o.cenc == Cenc::Null { o.content.clone() } else { sender::compress::compress_buffer(&o.content, o.cenc).ok()? };
@@ -210,7 +218,8 @@ fn codec_tables(sess: &Session) -> Vec<String> {
     let mut out: Vec<String> = Vec::new();
     for o in &sess.objs {
         let scheme = o.oti.fec_encoding_id as u8;
-        if scheme == 0 || o.transfer.is_empty() {
+        // No-Code and Reed-Solomon are concrete in the model driver; only RaptorQ / Raptor need a decode table
+        if scheme == 0 || scheme == 5 || scheme == 129 || o.transfer.is_empty() {
             continue;
         }
         let (e, b) = (o.oti.encoding_symbol_length as u64, o.oti.maximum_source_block_length as u64);
@@ -821,6 +830,74 @@ pub fn run(ctx: &mut Ctx, eng: &mut dyn Engine) {
         h.push(None);
         let cc = CaseCfg { max: *rng.pick(&[1usize, 50, 100, 300]), maxerr: *rng.pick(&[0usize, 3]), ..Default::default() };
         r.case("limits", &cc, &sess, &tables, &h, true);
+    }
+
+    // ---- 8. Reed-Solomon GF(2^m) (no decoder in flute): FTI announcing scheme 2, various m
+    for m in [8u32, 4, 16, 31, 32, 40, 255] {
+        for inband in [true, false] {
+            let oti = scheme_oti(0, 8, 2, 0, true);
+            let spec = ObjSpec { content: content(&mut rng, 20), cenc: Cenc::Null, inband_cenc: false, md5: false, oti: None, transfers: 1 };
+            let sess = match make_session(&oti, &[spec], 1, 1) {
+                Some(s) => s,
+                None => continue,
+            };
+            let o = sess.objs[0].clone();
+            let mut h: Vec<Option<Vec<u8>>> = Vec::new();
+            if !inband {
+                let xml = fdt_xml(&[format!(
+                    "<File TOI=\"{}\" Content-Location=\"file:///o0\" Content-Length=\"20\" Transfer-Length=\"20\" FEC-OTI-FEC-Encoding-ID=\"2\" FEC-OTI-Maximum-Source-Block-Length=\"2\" FEC-OTI-Encoding-Symbol-Length=\"8\" FEC-OTI-Scheme-Specific-Info=\"{}\"/>",
+                    o.toi,
+                    { use base64::Engine; base64::engine::general_purpose::STANDARD.encode([m as u8, 1u8]) }
+                )]);
+                h.extend(fdt_packets(9, &xml).into_iter().map(Some));
+            }
+            for raw in &sess.pkts {
+                let is_obj = alc::parse_alc_pkt(raw).map(|p| p.lct.toi == o.toi).unwrap_or(false);
+                if !is_obj {
+                    if inband {
+                        h.push(Some(raw.clone()));
+                    }
+                    continue;
+                }
+                let p = alc::parse_alc_pkt(raw).unwrap();
+                let pid = alc::parse_payload_id(&p, &o.oti).unwrap();
+                let oti2 = hk::make_oti(2, 0, 2, 8, 1, Some((0, m, 1, 0)), inband).unwrap();
+                let f = hk::PktFields {
+                    payload: raw[p.data_payload_offset..].to_vec(),
+                    transfer_length: 20,
+                    esi: pid.esi,
+                    sbn: pid.sbn,
+                    toi: o.toi,
+                    fdt_id: None,
+                    cenc: Cenc::Null,
+                    inband_cenc: false,
+                    close_object: false,
+                    source_block_length: 0,
+                    sender_current_time: false,
+                };
+                if let Ok(raw2) = guarded(std::panic::AssertUnwindSafe(move || hk::new_alc_pkt(&oti2, &0u128, TSI, &f, false, now()))) {
+                    h.push(Some(raw2));
+                }
+            }
+            h.push(None);
+            let cc = CaseCfg { expect_mode: None, ..Default::default() };
+            r.case("rs2m", &cc, &sess, &[], &h, false);
+        }
+    }
+
+    // ---- 9. content encoding with tiny blocks / empty content (the inflate loop, D15)
+    for &cenc in &[Cenc::Gzip, Cenc::Zlib, Cenc::Deflate] {
+        for (e, b, size) in [(4u16, 2u16, 0usize), (4, 2, 30), (2, 1, 10), (8, 2, 0), (1, 3, 5), (16, 1, 0), (16, 1, 40)] {
+            let oti = scheme_oti(0, e, b, 0, true);
+            let spec = ObjSpec { content: content(&mut rng, size), cenc, inband_cenc: true, md5: true, oti: None, transfers: 1 };
+            let sess = match make_session(&oti, &[spec], 1, 1) {
+                Some(s) => s,
+                None => continue,
+            };
+            let mut h = all_pushed(&sess.pkts);
+            h.push(None);
+            r.case("cenc-tiny", &dflt, &sess, &[], &h, false);
+        }
     }
 }
 
